@@ -149,6 +149,28 @@ impl C05Hook {
         None
     }
 
+    /// AbsOrd / AbsEq of the same two values against the exact relation of the absolute values
+    fn check_abs_ord<T: dashu_base::AbsOrd>(a: &T, b: &T, exact_abs: Ordering, what: &str, step: usize, desc: impl Fn() -> String) -> Option<Violation> {
+        let c = a.abs_cmp(b);
+        if c != exact_abs {
+            return viol(&format!("{}.abs_cmp", what), step, format!("abs_cmp says {:?} but |values| compare {:?}: {}", c, exact_abs, desc()));
+        }
+        if b.abs_cmp(a) != exact_abs.reverse() {
+            return viol(&format!("{}.abs_cmp_asym", what), step, format!("abs_cmp(b,a) is not the reverse of abs_cmp(a,b)={:?}: {}", c, desc()));
+        }
+        None
+    }
+    fn check_abs<T: dashu_base::AbsOrd + dashu_base::AbsEq>(a: &T, b: &T, exact_abs: Ordering, what: &str, step: usize, desc: impl Fn() -> String) -> Option<Violation> {
+        if let Some(v) = Self::check_abs_ord(a, b, exact_abs, what, step, &desc) {
+            return Some(v);
+        }
+        let e = a.abs_eq(b);
+        if e != (exact_abs == Ordering::Equal) || b.abs_eq(a) != e {
+            return viol(&format!("{}.abs_eq", what), step, format!("abs_eq says {} but |values| compare {:?}: {}", e, exact_abs, desc()));
+        }
+        None
+    }
+
     fn check_u(&mut self, w: &World, k: usize, step: usize) -> Option<Violation> {
         let a = &w.u[k];
         let ea = ubig_to_bigint(a);
@@ -158,6 +180,9 @@ impl C05Hook {
             self.comparisons += 1;
             let d = || format!("U[{}]={} vs U[{}]={}", k, hex_ubig(a), j, hex_ubig(b));
             if let Some(v) = Self::check_ord(a, b, exact, "int", step, d) {
+                return Some(v);
+            }
+            if let Some(v) = Self::check_abs(a, b, exact, "int", step, d) {
                 return Some(v);
             }
             if exact == Ordering::Equal {
@@ -186,10 +211,14 @@ impl C05Hook {
         let a = &w.i[k];
         let ea = ibig_to_bigint(a);
         for (j, b) in w.i.iter().enumerate() {
-            let exact = ea.cmp(&ibig_to_bigint(b));
+            let eb = ibig_to_bigint(b);
+            let exact = ea.cmp(&eb);
             self.comparisons += 1;
             let d = || format!("I[{}]={} vs I[{}]={}", k, hex_ibig(a), j, hex_ibig(b));
             if let Some(v) = Self::check_ord(a, b, exact, "int", step, d) {
+                return Some(v);
+            }
+            if let Some(v) = Self::check_abs(a, b, ea.abs().cmp(&eb.abs()), "int", step, d) {
                 return Some(v);
             }
             if exact == Ordering::Equal {
@@ -220,6 +249,20 @@ impl C05Hook {
             let d = || format!("{}[{}]={} vs {}[{}]={}", name, k, text_fbig(a), name, j, text_fbig(b));
             if let Some(v) = Self::check_ord(a, b, exact, "float", step, d) {
                 return Some(v);
+            }
+            {
+                let abs_of = |v: &FVal| FVal { sig: v.sig.abs(), exp: v.exp, inf: v.inf.map(|_| Ordering::Greater) };
+                let eb = fval(b);
+                let exact_abs = exact_cmp_f(&abs_of(&ea), &abs_of(&eb), B as u64);
+                if let Some(v) = Self::check_abs_ord(a, b, exact_abs, "float", step, d) {
+                    return Some(v);
+                }
+                // the public representation type has its own Ord / Eq
+                if a.repr().is_finite() && b.repr().is_finite() {
+                    if a.repr().cmp(b.repr()) != exact || (a.repr() == b.repr()) != (exact == Ordering::Equal) {
+                        return viol("float.repr_cmp", step, format!("Repr cmp/== disagree with the values ({:?}): {}", exact, d()));
+                    }
+                }
             }
             if exact == Ordering::Equal {
                 self.equal_pairs += 1;
@@ -257,6 +300,9 @@ impl C05Hook {
             self.comparisons += 1;
             let d = || format!("R[{}]={} vs R[{}]={}", k, text_rbig(a), j, text_rbig(b));
             if let Some(v) = Self::check_ord(a, b, exact, "ratio", step, d) {
+                return Some(v);
+            }
+            if let Some(v) = Self::check_abs(a, b, (na.abs() * &db).cmp(&(nb.abs() * &da)), "ratio", step, d) {
                 return Some(v);
             }
             if exact == Ordering::Equal {
@@ -309,6 +355,9 @@ impl C05Hook {
             }
             let d = || format!("X[{}]={} vs X[{}]={}", k, text_relaxed(a), j, text_relaxed(b));
             if let Some(v) = Self::check_ord(a, b, exact, "relaxed", step, d) {
+                return Some(v);
+            }
+            if let Some(v) = Self::check_abs(a, b, (na.abs() * &db).cmp(&(nb.abs() * &da)), "relaxed", step, d) {
                 return Some(v);
             }
         }
